@@ -65,7 +65,7 @@ TextOf(form, n, f) ==
 BddCount(n, fs) == IF n <= 5 THEN RobddNodes(n, fs) ELSE SliceNodes(n, fs)
 
 Apply(e, S, it) ==
-  CASE e.op \in {"copy", "reload", "conv_rt"} -> Ok(e.d :> S[e.a], {NoObs}, it)
+  CASE e.op \in {"copy", "clone_from", "reload", "conv_rt"} -> Ok(e.d :> S[e.a], {NoObs}, it)
     [] e.op = "conv_try" ->
          IF e.n = S[e.a].n THEN Ok(e.d :> S[e.a], {NoObs}, it) ELSE Ret({"err"}, NoW, {NoObs}, it)
     [] e.op = "zero" -> Ok(e.d :> Val(e.n, {}), {NoObs}, it)
